@@ -824,6 +824,8 @@ _NUM = re.compile(r"\b\d+\b")
 def norm_msg(msg: str) -> str:
     msg = re.sub(r"\bClass [\w.]+ ", "Class _ ", msg)
     msg = re.sub(r'; (did you mean|maybe) .*$', "", msg)
+    msg = re.sub(r"has a default value of .*, which is different from stub parameter default .*$",
+                 "has a default value of <V>, which is different from stub parameter default <V>", msg)
     msg = re.sub(r'("[^"]*")(, "[^"]*")+', r'\1, ...', msg)
     msg = re.sub(r"(runtime type |has type |type )(\w+)\[.*$", r"\1\2[...]", msg)
     msg = _Q.sub('"_"', msg)
